@@ -380,6 +380,11 @@ def c112(ctx):
             n += 1
             ctx.check(R, f, "forwards", moves == {m}, "%s forwards to inner %s only" % (f.skey, m),
                       "%s calls %s on the wrapped cursor (expected exactly {%s})" % (f.skey, sorted(moves), m))
+            if m in ("next", "prev"):
+                looped = [pt for c, pt in cursor_calls(f) if c == m and P.reach(f, P.after(f, pt), [pt]) is not None]
+                ctx.check(R, f, "one-step", not looped, "%s moves the wrapped cursor by one entry" % f.skey,
+                          "%s steps the wrapped cursor in a loop: a wrapper that skips entries (other versions of a key, tombstones) hides them from the "
+                          "stages above it, which select the version visible at the scan's timestamp" % f.skey, pt=looped[0] if looped else None)
     for prefix in KV_ONLY:
         for m in ("key", "value"):
             f = find_impl_fn(ctx, prefix, m)
